@@ -622,7 +622,7 @@ class CompositeFrame(CoordinateFrame):
 
     def coordinates(self, *args):
         coo = []
-        if len(args) == len(self.frames):
+        if len(args) == len(self.frames) and len(args) != self.naxes:
             for frame, arg in zip(self.frames, args):
                 coo.append(frame.coordinates(arg))
         else:
